@@ -46,6 +46,8 @@ def run(tier, seed):
             {'backup': 'always', 'threads': 2, 'quiet': True, 'threads_env': True}, {'backup': 'never', 'threads': 1, 'quiet': True, 'threads_env': True}]
     small = [s for s in uniq if tq.series_dev(s) <= 1 and sum(len(p.fps) for p in s) <= 2][::(3 if tier == 'quick' else 1)]
     wsprops.sweep('C05', res, m0, small, addr, 'workspace_addressing_sweep')
+    import rawcases
+    rawcases.run_expect('C05', res)
     cov = res.coverage
     cov['series'] = len(uniq)
     cov['bounds'] = bounds
